@@ -15,11 +15,17 @@ def sig_index(vec, probs):
             "symptom": sym}
 
 
-def run_index(out, families, patterns, maxdims, invariants, prop, probe_alias=False):
+# kind patterns on 5-dimensional arrays and long dimensions with block-shaped subsets (MaxDims is irrelevant for the
+# pattern families and kept at 1: TLC evaluates every constant definition of the module eagerly)
+PATTERN_MODELS = [("getpat", "P22222", 1), ("getpat", "P23232", 1), ("setpat", "P22222", 1), ("get", "P52", 2), ("get", "P25", 2),
+                  ("setnum", "P52", 2), ("setnum", "P25", 2)]
+
+
+def run_index(out, families, patterns, maxdims, invariants, prop, probe_alias=False, extra=()):
     models = []
-    for fam in families:
-        for p in patterns:
-            md = maxdims[(fam, p)] if isinstance(maxdims, dict) else maxdims
+    specs = [(fam, p, (maxdims[(fam, p)] if isinstance(maxdims, dict) else maxdims)) for fam in families for p in patterns]
+    for fam, p, md in specs + list(extra):
+        if True:
             models.append(Model("MC_Index.tla", {"Pattern": p, "Family": fam, "MaxDims": md, "Emit": True},
                                 invariants=["TypeOK"] + invariants + ["EmitInv"], workers=2,
                                 label=f"MC_Index/{fam}/{p}/maxdims{md}"))
@@ -47,9 +53,22 @@ def check_C06(tier, seed):
     else:
         pats = ["P322", "P222", "P232", "P223", "P2222", "P3222"]
         md = {(f, p): (4 if len(p) == 5 and f in ("get", "geterr") else 3) for f in ("get", "geterr", "setnum") for p in pats}
-    run_index(out, ["get", "geterr", "setnum"], pats, md, ["Prop_C06", "Prop_C05"], "C06")
+    run_index(out, ["get", "geterr", "setnum"], pats, md, ["Prop_C06", "Prop_C05"], "C06", extra=PATTERN_MODELS)
     from .checks_traces import run_traces
     run_traces(out, "C06", tier)
+    # L2: numpy's axis-order rule + flodym's open-mesh conversion refine the contract's labelling for every index
+    # vector (ArrayStore.tla); the pre-fix conversion rule must NOT (non-vacuity)
+    from . import tlcrun
+    from .core import Machinery
+    for variant, must_hold in (("current", True), ("pre_fix", False)):
+        lines = []
+        r = tlcrun.run_tlc("MC_ArrayStore.tla", tlcrun.cfg_text(constants={"Variant": variant, "MaxAxes": 5 if tier == "quick" else 7},
+                                                                   invariants=["PrintWitness", "Prop_Order"]), workers=1, line_sink=lines.append)
+        if must_hold and r.violation:
+            raise Machinery(f"ArrayStore refinement fails for the current conversion rule: {lines[:1]}")
+        if not must_hold and not r.violation:
+            raise Machinery("ArrayStore refinement holds for the pre-fix conversion rule: the L2 model is vacuous")
+        out.extra.setdefault("l2_arraystore", {})[variant] = {"holds": not r.violation, "witness": lines[:1]}
     out.exhaustive = True
     out.assumptions += [
         "direction B: recorded random programs (reads and writes with random keys on arrays of up to 5 dimensions) validated by TLC",
@@ -69,7 +88,7 @@ def check_C05(tier, seed):
         pats, md = ["P322", "P222"], 3
     else:
         pats, md = ["P322", "P222", "P232", "P223", "P2222"], 3
-    run_index(out, ["setarr", "setnum"], pats, md, ["Prop_C05"], "C05")
+    run_index(out, ["setarr", "setnum"], pats, md, ["Prop_C05"], "C05", extra=[m for m in PATTERN_MODELS if m[0] in ("setpat", "setnum")])
     from .checks_workspace import run_workspace  # histories of assignments
     run_workspace(out, "C05", tier)
     from .checks_traces import run_traces
